@@ -185,6 +185,12 @@ func snapshot(db *localstore.DB) (state, error) {
 			st.Bad = append(st.Bad, fmt.Sprintf("cache (gc) entry for file root %d without the root chunk's data", i))
 		}
 	}
+	for _, it := range d.Access {
+		// "fully present ... or fully absent": an access-time record belongs to a stored chunk
+		if i := idx(it.Address); !st.Ret[i] {
+			st.Bad = append(st.Bad, fmt.Sprintf("access-time entry for chunk %d without its data", i))
+		}
+	}
 	if st.GCSize < st.GCSum {
 		st.Bad = append(st.Bad, fmt.Sprintf("cached-chunk counter %d below the recomputed total %d", st.GCSize, st.GCSum))
 	}
@@ -202,8 +208,10 @@ func ctxFor(root int) context.Context {
 // apply executes one op; errors are returned, never judged here.
 func apply(s *store, o op, present func(int) bool) error {
 	root := o.Root
-	if root != 0 && !present(root0+root-1) {
-		root = 0 // a file context is only used while its root chunk is stored (every caller guarantees it)
+	if root != 0 && !present(root0+root-1) && !(o.K == "put" && o.A == root0+root-1) {
+		// a file context is only used while its root chunk is stored (every caller guarantees it) -
+		// or for storing that root chunk itself, which is how every download begins
+		root = 0
 	}
 	switch o.K {
 	case "put":
@@ -351,7 +359,7 @@ func genOps(t *rapid.T, max int) []op {
 func TestC14_CrashAtEveryWrite(t *testing.T) {
 	r := evid.Get(id)
 	evid.Finish(t, r)
-	r.SetRule("rapid: histories of 2-15 single-chunk operations on the real local store opened through a fault-injecting storage driver (request/upload/pinned puts, pin/unpin/remove with and without a file context, synchronous GC runs over a minimal file table); the history is first run cleanly to count the driver writes W of every operation, then for EVERY k in 1..W it is re-run from scratch with write k and all later writes dropped, the store is abandoned and reopened on the same backing database; oracle on the reopened store: stored chunks have exact bytes, every pin entry and every cache entry refers to stored data, cached-chunk counter >= recomputed total, each chunk's pin count and presence equal their value before or after the interrupted operation; one evaluation = one (history, crash point); non-trivial = crash point inside an operation with >= 2 driver writes")
+	r.SetRule("rapid: histories of 2-15 single-chunk operations on the real local store opened through a fault-injecting storage driver (request/upload/pinned puts, pin/unpin/remove with and without a file context, synchronous GC runs over a minimal file table); the history is first run cleanly to count the driver writes W of every operation, then for EVERY k in 1..W it is re-run from scratch with write k and all later writes dropped, the store is abandoned and reopened on the same backing database; oracle on the reopened store: stored chunks have exact bytes, every pin entry, cache entry and access-time entry refers to stored data, cached-chunk counter >= recomputed total, each chunk's pin count and presence equal their value before or after the interrupted operation; one evaluation = one (history, crash point); non-trivial = crash point inside an operation with >= 2 driver writes")
 	evid.Checks(300)
 	all := true // interrupting every operation of a history is cheap enough for the quick tier too
 	rapid.Check(t, func(t *rapid.T) {
